@@ -23,14 +23,14 @@ var c11Engines = []string{"memkv", "badger", "tikv", "memkv+m", "badger+m", "tik
 func init() {
 	Registry["C11"] = &Prop{
 		Plan: func(tier string) Plan {
-			return Plan{Level: "exploration", NCases: pick(tier, 720, 12000), Batch: 10, CaseTimeout: 60,
+			return Plan{Level: "exploration", NCases: pick(tier, 720, 60000), Batch: 10, CaseTimeout: 60,
 				Rule: "one case = one PRNG sequence of 20-200 steps on one engine (memkv / Badger / TiKV mock, each also behind the metrics wrapper with the real Prometheus client): " +
 					"batches of 1-4 ops from {put-if-absent, CAS, put, del, delete-current} on distinct keys incl. several conditions per batch and conditions on missing keys; Get; Del; DelCurrent; forward/backward/limited Iter with bounds on/between/outside keys and writes slipped in between creating and draining the iterator; every 5th case instead runs 8 concurrent readers (iterators with non-stored bounds, gets of missing keys) over an unchanging store, whose results must be exact, and another every 5th runs 6 concurrent conditional writers released together (put-if-absent on a fresh key: exactly one commits; compare-and-swap increments: counter == acknowledged successes). " +
 					"oracle = sorted-map reference in lock-step (all-or-nothing batches, failure <=> some condition false and then errors.Is(err, ErrCASFailed), iterator output = reference slice of the snapshot at creation, or a prefix of length >= limit). " +
 					"non-trivial = sequence with >=1 failed multi-op batch, >=1 backward and >=1 limited iteration and >=1 write slipped under an open iterator; distinct by (engine, step-kind/outcome vector)",
 				Assumptions: []string{"TTL argument is always 0", "ops of one batch touch distinct keys (the contract does not define same-key ordering)",
 					"a key rewritten with an identical value under an open iterator is not generated (delete-if-value-equal and delete-if-version-equal may differ there, both allowed)"},
-				MinConcl: pick(tier, 600, 10000)}
+				MinConcl: pick(tier, 600, 50000)}
 		},
 		Name: func(c *harness.Case) string { return "kv-" + c11Engines[c.Index%len(c11Engines)] },
 		Run:  runC11,
